@@ -94,6 +94,7 @@ func checkC04(c *Ctx, r *Report) {
 	defer everyFieldHandledRule(c, r)
 	defer validatorSiblingsRule(c, r)
 	defer validatorKindsRule(c, r)
+	defer validateUnwrapsRule(c, r)
 	r.Assumption("custom validators registered with RegisterValidator and Validate() methods are user code; the rule decides that they are called, not what they accept")
 	r.Assumption("kind waiver: no built-in validator inspects struct values or Config-convertible values; a pointer is looked through by every built-in validator (R04i)")
 	runV := c.Func("", "runValidators")
@@ -962,9 +963,22 @@ func nanRule(c *Ctx, r *Report) {
 // everything. (ii) None recognises a string by asserting the value to the predeclared type string: a named string
 // type (type Level string) fails the assertion and would be accepted empty.
 func validatorSiblingsRule(c *Ctx, r *Report) {
-	r.Rule("R04i", "every built-in tag validator takes the kind of its value after chaseValue, and none recognises strings by an assertion to string", 5)
+	r.Rule("R04i", "every built-in tag validator takes the kind of its value after chaseValue, and none recognises strings by an assertion to string", 7)
 	kt, _ := reflectKind(c)
-	for _, name := range []string{"validateNonZero", "validatePositive", "validateMin", "validateMax", "validateNonEmptyWithAllowNil"} {
+	// the validators are enumerated from the package (validate* functions whose first parameter is the value as an
+	// interface{}), not listed: the list this rule started with left validateRequired out, and `required` on a *int
+	// holding 0 or on a **string with a nil inner pointer was accepted (repaired after the round-11 hunt)
+	var names []string
+	for _, f := range c.SrcFuncs() {
+		if f.Pkg != c.SSA[""] || f.Parent() != nil || !strings.HasPrefix(f.Name(), "validate") || len(f.Params) == 0 {
+			continue
+		}
+		if it, ok := f.Params[0].Type().Underlying().(*types.Interface); ok && it.NumMethods() == 0 {
+			names = append(names, f.Name())
+		}
+	}
+	sort.Strings(names)
+	for _, name := range names {
 		fn := c.TryFunc("", name)
 		if fn == nil {
 			r.add("R04i", "ucfg."+name, "kind of the chased value", "-", Undecided, true, "validator not found")
@@ -1314,4 +1328,82 @@ func validatorKindsRule(c *Ctx, r *Report) {
 		r.Check(len(missing) == 0, "R04l", c.FnName(fn), "numeric kinds", c.Pos(fn.Pos()), "all thirteen numeric kinds have a comparing case",
 			"the validator has no case for kind "+strings.Join(missing, ", ")+": a field of that kind takes the branch of the kinds the validator does not know, and the tag is not enforced on it")
 	}
+}
+
+// validateUnwrapsRule (R04m): tryValidate is handed struct fields, map entries and list elements as reflect values of
+// their *static* type. For a field of type interface{} (or an entry of map[string]interface{}, an element of
+// []interface{}) that type is the interface type, for **T it is **T — neither implements Validator, so the Validate()
+// of the value held was never asked (repaired after the round-11 hunt, C04 H2). The type tested with Implements is
+// therefore the type of a value that was unwrapped first: its sources include an Elem() call or a chase helper, and
+// the test is not reached while the value is of kind Interface.
+func validateUnwrapsRule(c *Ctx, r *Report) {
+	r.Rule("R04m", "tryValidate tests Implements(Validator) on the type of the value an interface or a chain of pointers holds (the value is unwrapped by Elem() / a chase helper first), not on the static type of the holder", 1)
+	fn := c.Func("", "tryValidate")
+	kt, _ := reflectKind(c)
+	n, bad := 0, ""
+	for _, ci := range CallsIn(fn, false) {
+		cc := ci.Common()
+		if !cc.IsInvoke() || cc.Method.Name() != "Implements" {
+			continue
+		}
+		n++
+		// the type: (reflect.Value).Type(x), possibly wrapped in reflect.PtrTo
+		var holder ssa.Value
+		for _, src := range append([]ssa.Value{cc.Value}, Sources(cc.Value)...) {
+			call, ok := src.(*ssa.Call)
+			if !ok {
+				continue
+			}
+			g := call.Call.StaticCallee()
+			if g != nil && (g.String() == "reflect.PtrTo" || g.String() == "reflect.PointerTo") {
+				for _, s2 := range append([]ssa.Value{call.Call.Args[0]}, Sources(call.Call.Args[0])...) {
+					if c2, ok := s2.(*ssa.Call); ok && c2.Call.StaticCallee() != nil && c2.Call.StaticCallee().String() == "(reflect.Value).Type" {
+						holder = c2.Call.Args[0]
+					}
+				}
+			}
+			if g != nil && g.String() == "(reflect.Value).Type" {
+				holder = call.Call.Args[0]
+			}
+		}
+		if holder == nil {
+			bad = "the type tested at " + c.Pos(ci.Pos()) + " is not the type of a reflect value"
+			continue
+		}
+		unwrapped := false
+		for _, src := range append([]ssa.Value{holder}, Sources(holder)...) {
+			if call, ok := src.(*ssa.Call); ok {
+				if g := call.Call.StaticCallee(); g != nil && (g.String() == "(reflect.Value).Elem" || strings.HasPrefix(g.Name(), "chaseValue")) {
+					unwrapped = true
+				}
+			}
+		}
+		notIface := false
+		for _, cd := range DomConds(ci.Block()) {
+			for _, part := range ExpandConds([]Cond{cd}) {
+				if _, k, isTest := enumTest(part.V, kt); isTest && k == 20 { // reflect.Interface
+					if (part.V.(*ssa.BinOp).Op == token.EQL) != part.Truth {
+						notIface = true
+					}
+				}
+			}
+		}
+		if !unwrapped {
+			bad = "the value whose type is tested at " + c.Pos(ci.Pos()) + " is the holder as handed over (no Elem() / chase on the way)"
+		} else if !notIface && !strings.Contains(bad, "holder") {
+			// the loop that unwraps ends when the kind is no interface: accept a chase helper's post-condition as well
+			for _, src := range append([]ssa.Value{holder}, Sources(holder)...) {
+				if call, ok := src.(*ssa.Call); ok {
+					if g := call.Call.StaticCallee(); g != nil && strings.HasPrefix(g.Name(), "chaseValue") {
+						notIface = true
+					}
+				}
+			}
+			if !notIface {
+				bad = "the test at " + c.Pos(ci.Pos()) + " can be reached while the value is still of kind Interface"
+			}
+		}
+	}
+	r.Check(n > 0 && bad == "", "R04m", c.FnName(fn), "Implements on the unwrapped value", c.Pos(fn.Pos()), fmt.Sprintf("%d Implements test(s), each on the type of the value behind interfaces and pointer chains", n),
+		"tryValidate decides whether a value has a Validate() method by the static type of what holds it ("+bad+"): a kept or default value held by an interface{} field, a map[string]interface{} entry, a []interface{} element or a **T is returned without its Validate() having been asked")
 }
